@@ -31,6 +31,7 @@ type c09X struct {
 	EhloTLS       []bool
 	Markers       []int
 	PreGreetAuth  int  // step index of an AUTH sent before the greeting (-1 none)
+	Helo          bool // a greeting was HELO instead of EHLO
 	FailedUpgrade bool // a STARTTLS whose handshake failed precedes the attempts: still plaintext
 	// client half
 	CliPlan  *ClientSaslPlan
@@ -122,6 +123,12 @@ func genC09(t *Tape, tier string) *Scenario {
 		steps = append(steps, Step{Kind: kAuth, Data: line("AUTH SIMPLE %s", b64([]byte("early"))), Wait: 1})
 	}
 	ehlo := func() {
+		if t.Chance(1, 4) {
+			// the old greeting: nothing is advertised, the gate on AUTH stands all the same
+			x.Helo = true
+			steps = append(steps, Step{Kind: kHelo, Data: line("HELO client.example"), Wait: 1})
+			return
+		}
 		x.EhloIdx = append(x.EhloIdx, len(steps))
 		x.EhloTLS = append(x.EhloTLS, tlsActive)
 		steps = append(steps, Step{Kind: kHelo, Data: line("EHLO client.example"), Wait: 1})
@@ -633,6 +640,9 @@ func classifyC09(sc *Scenario, h *History, st *Stats) string {
 	for _, a := range x.Attempts {
 		o = append(o, fmt.Sprintf("%s/%d/%v", a.Outcome, a.Epoch, a.Allowed))
 		st.Probes["attempt_"+a.Outcome]++
+		if x.Helo {
+			st.Probes["attempt_after_HELO"]++
+		}
 		if (a.Outcome == "stall" || a.Outcome == "longline") && a.NSteps > 1 && h.Conns[0].StepOff[a.StepIdx+a.NSteps-1] >= 0 {
 			st.Faults["client_answers_a_challenge_"+map[string]string{"stall": "later_than_ReadTimeout", "longline": "with_an_over-long_line"}[a.Outcome]]++
 		}
@@ -680,7 +690,7 @@ func init() {
 		Real:        []string{"smtp.Server.Serve/handleConn", "smtp.Conn handleAuth, handleGreet (capabilities), handleStartTLS", "smtp.Client.Auth, NewClientStartTLS", "crypto/tls (client and server)", "net/textproto"},
 		Stub:        []string{"net.Listener (SimListener)", "net.Conn (SimConn)", "Backend/AuthSession (SimBackend)", "sasl.Server and sasl.Client (scripted, recording)", "clock (synctest)", "SMTP client of the server half (raw driver)"},
 		Assumptions: []string{"a nil (as opposed to empty) response from a client mechanism's Next is an unspecified contract and is not generated", "the reply code of a failed/malformed/cancelled exchange is not judged, only that it is not positive and the connection is back in command mode"},
-		Required:    []string{"attempt_235", "attempt_badb64", "attempt_cancel", "attempt_fail", "attempt_unknown-mech", "attempt_not_permitted", "attempt_after_success", "auth_after_failed_starttls_handshake", "client_half", "client_mechanism_error", "empty_initial_response", "tls_handshake_completed", "client_answers_a_challenge_later_than_ReadTimeout", "client_answers_a_challenge_with_an_over-long_line", "client_auth_exchange_broken_off"},
+		Required:    []string{"attempt_235", "attempt_badb64", "attempt_cancel", "attempt_fail", "attempt_unknown-mech", "attempt_not_permitted", "attempt_after_success", "auth_after_failed_starttls_handshake", "client_half", "client_mechanism_error", "empty_initial_response", "tls_handshake_completed", "client_answers_a_challenge_later_than_ReadTimeout", "client_answers_a_challenge_with_an_over-long_line", "client_auth_exchange_broken_off", "attempt_after_HELO"},
 		QuickRuns:   40000, ThoroughRuns: 1000000,
 	})
 }
